@@ -25,10 +25,20 @@ def main():
             sys.exit(rc)
         mod.run(ctx)
     except Exception:
-        # a crash of the machinery is not a verdict about the property: report it as a broken check (exit 2)
-        traceback.print_exc()
-        print(f'[{a.prop}] CHECK ERROR (machinery failure, no verdict)')
-        sys.exit(2)
+        # the correspondence could not be evaluated on this tree (a worker or the harness tripped over behaviour it does
+        # not expect - on the unchanged tree this never happens): the property is no longer shown to hold, which is
+        # reported like any other broken tie (VIOLATION ... no-failing-input-found, the replay names what broke), next to
+        # whatever violations with failing inputs were already found
+        tb = traceback.format_exc()
+        sys.stderr.write(tb)
+        print(f'[{a.prop}] CHECK ERROR (machinery failure): reported as a broken correspondence')
+        try:
+            ctx.broken_tie(f'correspondence harness of {a.prop} (machinery failure, the campaign could not be evaluated)', tb[-3000:])
+            rc = ctx.finish()
+        except Exception:
+            traceback.print_exc()
+            sys.exit(2)
+        sys.exit(rc if rc else 1)
     sys.exit(ctx.finish())
 
 
